@@ -79,6 +79,13 @@ func (x *Exec) callFunc(st *State, fr *Frame, in *ssa.Call, callee *ssa.Function
 	if v, ok := x.model(st, fr, in, callee, args); ok {
 		return v
 	}
+	// inside a spec expression real code is always inlined (its contract would
+	// only give assumptions, which a spec term cannot carry)
+	if x.quiet > 0 && callee.Blocks != nil && !x.onStack(callee) && x.inlinable(callee) {
+		if ct := x.db.Contracts[key]; ct == nil || !ct.Trusted {
+			return x.inline(st, fr, in, callee, bindings, args)
+		}
+	}
 	// 2. contract
 	if ct := x.db.Contracts[key]; ct != nil && !ct.Inline && callee != x.root || (callee == x.root && x.contract != nil) {
 		if ct == nil {
